@@ -15,6 +15,8 @@ enum Op {
     AnnounceGoodbyeRepeat,
     AnnounceRepeat,
     AnnounceRepeatLong,
+    UpdateStream,
+    UpdateStreamLong,
     HostileCorpus,
     Browse,
     StopBrowse,
@@ -26,7 +28,7 @@ enum Op {
     UnsolicitedOff,
     Idle10s,
 }
-const OPS: [Op; 17] = [
+const OPS: [Op; 19] = [
     Op::UnbrowsedTypeStream,
     Op::OrphanStream,
     Op::BrowsedStream,
@@ -34,6 +36,8 @@ const OPS: [Op; 17] = [
     Op::AnnounceGoodbyeRepeat,
     Op::AnnounceRepeat,
     Op::AnnounceRepeatLong,
+    Op::UpdateStream,
+    Op::UpdateStreamLong,
     Op::HostileCorpus,
     Op::Browse,
     Op::StopBrowse,
@@ -123,6 +127,20 @@ fn run_case(seq: &[Op], trace: bool) -> CaseResult {
                     needed_instances += 1;
                 }
             }
+            Op::UpdateStream | Op::UpdateStreamLong => {
+                // one instance whose TXT data changes with every announcement (cache-flush bit set),
+                // 150 ms apart: each version displaces the earlier ones one second later
+                let mut i = Inst::simple("upd", "updhost", [10, 0, 0, 55]);
+                let cnt = if *op == Op::UpdateStream { 20 } else { 40 };
+                for j in 0..cnt {
+                    i.txt = txt_rdata(&[(b"rev", Some(format!("{k}-{j}").as_bytes()))]);
+                    w.deliver(0, IF0, PEER0, build(&response(i.all(120))));
+                    w.advance(150);
+                }
+                if browsing {
+                    needed_instances += 1;
+                }
+            }
             Op::HostileCorpus => {
                 for (j, p) in crate::c01::corpus().into_iter().enumerate() {
                     w.deliver(0, IF0, PEER0, p.clone());
@@ -184,7 +202,7 @@ fn run_case(seq: &[Op], trace: bool) -> CaseResult {
         let after = metrics(&mut w);
         res.transitions += 1;
         trail.push_str(&format!("{op:?}:{:?};", CACHED.iter().map(|c| g(&after, c)).chain([g(&after, "timer")]).collect::<Vec<_>>()));
-        let traffic = matches!(op, Op::UnbrowsedTypeStream | Op::OrphanStream | Op::BrowsedStream | Op::BrowsedStreamLong | Op::AnnounceGoodbyeRepeat | Op::AnnounceRepeat | Op::AnnounceRepeatLong | Op::HostileCorpus);
+        let traffic = matches!(op, Op::UnbrowsedTypeStream | Op::OrphanStream | Op::BrowsedStream | Op::BrowsedStreamLong | Op::AnnounceGoodbyeRepeat | Op::AnnounceRepeat | Op::AnnounceRepeatLong | Op::UpdateStream | Op::UpdateStreamLong | Op::HostileCorpus);
         if traffic {
             res.count("traffic_events_checked", 1);
             let grew: Vec<(String, i64)> = CACHED.iter().map(|c| (c.to_string(), g(&after, c) - g(&before, c))).filter(|x| x.1 > 0).collect();
@@ -210,6 +228,16 @@ fn run_case(seq: &[Op], trace: bool) -> CaseResult {
                         format!("C20|unneeded-records-cached-while-searching|{what}"),
                         format!("after {op:?} (step {k}), searches: browse={browsing} resolve={resolving}: {grew:?}"),
                     ));
+                }
+            }
+            // (3) superseded versions of a record go away one second after they were displaced
+            if matches!(op, Op::UpdateStream | Op::UpdateStreamLong) && browsing {
+                res.count("update_streams_checked", 1);
+                let d = g(&after, "cached-txt") - g(&before, "cached-txt");
+                // a version is displaced by the first one arriving more than 1 s after it (the 8th
+                // next at 150 ms spacing) and leaves 1 s later (7 more): at most 15 alive, plus slack
+                if d > 16 {
+                    res.viols.push(viol("C20|superseded-record-versions-pile-up", format!("after {op:?} (step {k}): cached-txt grew by {d} for one instance")));
                 }
             }
             stream_sizes.push((*op, g(&after, "timer") - g(&before, "timer")));
@@ -293,7 +321,7 @@ pub fn check(tier: &str) -> i32 {
     };
     let part = FnPart {
         name: "traffic-and-search-sequences".into(),
-        rule: format!("every sequence of <= {depth} events over 8 traffic generators (streams of 50-100 distinct names for an unbrowsed type / without PTR / for the browsed type with subtypes, 100x announce+goodbye, 100x and 200x re-announcement, hostile corpus) and 9 API calls; metrics compared before/after each traffic event, after all TTLs, and one hour later"),
+        rule: format!("every sequence of <= {depth} events over 10 traffic generators (streams of 50-100 distinct names for an unbrowsed type / without PTR / for the browsed type with subtypes, 100x announce+goodbye, 100x and 200x re-announcement, 20 and 40 updates of one TXT record 150 ms apart, hostile corpus) and 9 API calls; metrics compared before/after each traffic event, after all TTLs, and one hour later"),
         n: nseq,
         describe: Box::new(move |i| format!("{:?}", seq_of(i))),
         run: Box::new(move |i, tr| run_case(&seq_of(i), tr)),
